@@ -230,7 +230,7 @@ func runC20(ctx *vh.Ctx) error {
 			return err
 		}
 	}
-	n := ctx.N(2500, 60000)
+	n := ctx.N(12000, 60000)
 	for i := 0; i < n && ctx.TimeLeft(); i++ {
 		var c *c20Case
 		switch x := ctx.Rng.Intn(100); {
